@@ -38,9 +38,8 @@
    NOT proved here:
    * "inputs are never modified" is not expressible in a pure functional model; the
      harness byte-compares the caller's arrays before and after each call (observation).
-   * Replication: proved for the fitted VALUES (C12_replication); the block vector of the
-     replicated call is not related to r here (it is determined by the values through
-     C12_blocks_determined).  Quantile and median reject every weights argument
+   * Replication: proved for the fitted VALUES (C12_replication) and for the BLOCK VECTOR
+     (C12_replication_blocks: rr = image of r under the cumulative counts).  Quantile and median reject every weights argument
      (NotImplementedError in the code, IErr ENotImplemented in the model), so the clause
      does not apply to them.
    * Equalities of fitted values are pointwise Qeq (==) on rationals, not Leibniz equality of
@@ -48,7 +47,7 @@
 From Coq Require Import QArith List Sorted.
 Import ListNotations.
 From MD Require Import lib.QLists model.Functionals model.Isotonic proofs.IsoProps proofs.IsoContract
-  proofs.IsoEquiv proofs.IsoReplicate.
+  proofs.IsoEquiv proofs.IsoReplicate proofs.IsoReplicateBlocks.
 Open Scope Q_scope.
 
 (* every successful call, whatever the arguments: the full contract *)
@@ -172,6 +171,28 @@ Theorem C12_replication : forall y ks inc f lvl x r,
                 Forall2 Qeq xx (repl x ks).
 Proof. exact iso_replication. Qed.
 Print Assumptions C12_replication.
+
+(* the BLOCK VECTOR of the replicated call: rr is the image of r under the cumulative counts
+   cum ks j = ks_0 + ... + ks_(j-1)  (proofs/IsoReplicateBlocks.v; every count positive) *)
+Theorem C12_replication_blocks : forall y ks inc f lvl x r,
+  length ks = length y -> (f = IFmean \/ f = IFexpectile) ->
+  Forall (fun k => 0 < k)%nat ks ->
+  isotonic_regression y (Some (map Qnat ks)) inc f lvl = IOk (x, r) ->
+  exists xx rr, isotonic_regression (repl y ks) None inc f lvl = IOk (xx, rr) /\
+                Forall2 Qeq xx (repl x ks) /\
+                forall k, In k rr <-> exists j, In j r /\ k = cum ks j.
+Proof. exact iso_replication_blocks. Qed.
+Print Assumptions C12_replication_blocks.
+
+(* shape of a replicated list: at an interior position k either k = cum ks j and the two neighbours are x_(j-1), x_j,
+   or k is no cumulative count and the two neighbours are equal *)
+Theorem C12_replication_shape : forall x ks, length ks = length x -> Forall (fun k => 0 < k)%nat ks ->
+  forall k, (0 < k < length (repl x ks))%nat ->
+    (exists j, (0 < j < length x)%nat /\ k = cum ks j /\
+               nth (k - 1) (repl x ks) 0 = nth (j - 1) x 0 /\ nth k (repl x ks) 0 = nth j x 0)
+    \/ ((forall j, k <> cum ks j) /\ nth (k - 1) (repl x ks) 0 = nth k (repl x ks) 0).
+Proof. exact repl_interior. Qed.
+Print Assumptions C12_replication_shape.
 
 (* ---- float twin (primitive floats; the names listed by Print Assumptions are Coq's primitive float operations, not axioms) ---- *)
 From Coq Require Import PrimFloat QArith List Bool.
